@@ -354,16 +354,16 @@ def users_ops(ctx):
     nrng = np.random.default_rng(ctx.np_seed + 7)
     ops, impl = [], []
     # (0) PureBosonicExt.__init__: the table stored on the object (index lists, values^2, dtypes) against the model's `bijTable`, the
-    #     size of the parameter manifold against `dimA * dickeNumber`; both distance kinds
+    #     size of the parameter manifold against `dimA * dickeNumber`; both distance kinds (dtypes of the stored table are not compared)
     for dimA, dimB, k in ([(2, 2, 2), (3, 2, 3), (2, 3, 2), (1, 3, 3), (2, 4, 2)] if ctx.quick() else [(a, b, k) for a in (1, 2, 3) for b in (2, 3, 4) for k in (1, 2, 3, 4)]):
         for kind in ('ree', 'gellmann'):
             def init_table(kind=kind):
                 m = numqi.entangle.PureBosonicExt(dimA, dimB, k, distance_kind=kind)
-                if any((x[0].dtype, x[1].dtype, x[2].dtype) != (torch.int64, torch.int64, torch.complex128) for x in m.Bij):
-                    return 'table-dtype'
-                if any(float(x[2].imag.abs().max()) != 0 for x in m.Bij if len(x[2])):
+                # values only: the dtypes of the stored attribute are an implementation detail (any integer index type, real or complex values)
+                val = lambda t: (t.real if t.is_complex() else t).detach().numpy().astype(np.float64)
+                if any(float(x[2].imag.abs().max()) != 0 for x in m.Bij if len(x[2]) and x[2].is_complex()):
                     return 'table-not-real'
-                return bij_line([(x[0].numpy(), x[1].numpy(), x[2].real.numpy()) for x in m.Bij], k)
+                return bij_line([(np.asarray(x[0]).astype(np.int64), np.asarray(x[1]).astype(np.int64), val(x[2])) for x in m.Bij], k)
 
             def init_size(kind=kind):
                 m = numqi.entangle.PureBosonicExt(dimA, dimB, k, distance_kind=kind)
